@@ -5,6 +5,7 @@
 #include <symengine/basic.h>
 #include <symengine/dict.h>
 #include <symengine/mul.h>
+#include <symengine/integer.h>
 
 #include <symengine/printers/strprinter.h>
 #include <sstream>
@@ -36,4 +37,12 @@ public:
           << apply(b);
     }
 };
+
+// R5.5: the built-in % truncates towards zero; on a possibly negative value
+// taken from an Integer it selects the wrong residue class
+long residue_of_exponent(const SymEngine::Integer &e)
+{
+    long rem = e.as_int() % 4;
+    return rem;
+}
 } // namespace verif_positive
